@@ -408,4 +408,32 @@ def runSpec (E : ElemOps ε) : List (Op ε) → Obj ε → Except NDErr (Obj ε)
     runSpec E r O'
 
 end Obj
+
+/-! ## the index object: elements as (source position, history of element-wise operations) -/
+
+inductive EOp where
+  | unit | inv | neg
+  deriving Repr, DecidableEq
+
+/-- symbolic element: which source element it is and which element-wise operations were applied to it
+(most recent first) -/
+structure SymE where
+  src : Nat
+  hist : List EOp
+  deriving Repr, DecidableEq
+
+def symOps : ElemOps SymE where
+  unit s := ⟨s.src, .unit :: s.hist⟩
+  inv s := ⟨s.src, .inv :: s.hist⟩
+  neg s := ⟨s.src, .neg :: s.hist⟩
+
+def applyE {ε : Type} (E : ElemOps ε) : EOp → ε → ε
+  | .unit => E.unit
+  | .inv => E.inv
+  | .neg => E.neg
+
+/-- value of a symbolic element: look the source element up, apply the recorded operations (oldest first) -/
+def evalSym {ε : Type} (E : ElemOps ε) (lookup : Nat → ε) (s : SymE) : ε :=
+  s.hist.foldr (applyE E) (lookup s.src)
+
 end Orix
